@@ -307,8 +307,10 @@ func (d *fdrv) setup() {
 
 // ---------------------------------------------------------------- getter-level state of one consumer
 
+// (read on a discarded cached context: GetConsumerInfractionUpdateTime removes the id it finds)
 func (d *fdrv) snapshot(c int64) string {
-	ctx, K, id := d.env.Ctx, d.env.K, cid(c)
+	ctx, _ := d.env.Ctx.CacheContext()
+	K, id := d.env.K, cid(c)
 	var b bytes.Buffer
 	p := func(label string, xs ...interface{}) { fmt.Fprintf(&b, "%s=%v;", label, xs) }
 	chain, e1 := K.GetConsumerChainId(ctx, id)
@@ -540,7 +542,8 @@ func (d *fdrv) apply() int64 {
 		d.advanceTo(rt)
 		return code(env.BeginBlock())
 	case 9: // BeginBlock at the time the queued infraction parameters of c1 become effective
-		ut, err := env.K.GetConsumerInfractionUpdateTime(env.Ctx, id)
+		cctx, _ := env.Ctx.CacheContext() // the getter removes the entry it finds
+		ut, err := env.K.GetConsumerInfractionUpdateTime(cctx, id)
 		if err != nil {
 			return 1
 		}
